@@ -127,10 +127,15 @@ StepPattern(e) ==
         /\ BumpIf(~ValidPattern(e.ct, t), 10)
   /\ UNCHANGED <<d, rf>>
 
+StepFresh(e) ==
+  /\ e.ev = "fresh"
+  /\ Judge(e, FreshFails(e), [ev |-> "fresh", how |-> e.how, again_out |-> e.again_out, oob_out |-> e.oob_out, dbg_flags_same |-> e.dbg_flags_same])
+  /\ UNCHANGED <<d, rf>>
+
 Next == /\ l <= NRec
         /\ LET e == Rec[l] IN
            \/ StepCase(e) \/ StepDraw(e) \/ StepFill(e) \/ StepFillC(e) \/ StepSetPixel(e) \/ StepFlag(e) \/ StepSnap(e)
-           \/ StepSwap(e) \/ StepObs(e) \/ StepObsPanic(e) \/ StepDbgBack(e) \/ StepPattern(e)
+           \/ StepSwap(e) \/ StepObs(e) \/ StepObsPanic(e) \/ StepDbgBack(e) \/ StepPattern(e) \/ StepFresh(e)
         /\ l' = l + 1
 Spec == Init /\ [][Next]_vars
 
